@@ -163,3 +163,31 @@ def _dit(c):
     c.ensures("result.over_sid == file.sid and result.over_wrap == w()", "the-parser-reads-through-the-right-unwrapping")
     c.ensures("result.kind == ite(uf_bool('is_roland', file.sid, w(), ite(w() == 0, 0, file.sid)), 1, 2)", "kind-is-decided-on-the-unwrapped-stream")
     c.modifies()
+
+
+# ================================================================================================== concrete reading of the constructor contracts
+CONCRETE = {}
+
+
+def _build_mdf_init(inputs):
+    from contracts.util_stream import _ghost_bytesio
+    from smpl_extract.alcohol.mdf import MdfStream
+    G = _ghost_bytesio()
+    p = inputs["parent_stream"]
+    parent = G(bytes(b % 256 for b in p["content"]))
+    parent.seek(max(0, p.get("cur", 0)))
+    obj = MdfStream.__new__(MdfStream)
+    return {"call": lambda: MdfStream.__init__(obj, parent), "args": [], "env": {"self": obj, "parent_stream": parent}}
+
+
+def _small_mdf_init(tier, seed):
+    for n in (0, 5, 2351, 2352, 2353, 2357, 4703, 4704, 4711, 7056 + 2000):
+        for cur in (0, 1, n):
+            yield {"parent_stream": {"content": [(3 * i + 1) % 251 for i in range(n)], "cur": cur}}
+
+
+CONCRETE["smpl_extract.alcohol.mdf:MdfStream.__init__"] = {
+    "build": _build_mdf_init, "small": _small_mdf_init,
+    "bound": "raw files of 0, 5, 2351..2353, 2357, 4703, 4704, 4711, 9056 bytes (whole sectors, stray tails, a cut-off last sector) x 3 cursor positions",
+    "timeout_s": 5.0,
+}
